@@ -117,6 +117,7 @@ def cases():
                 # constant model still *reports* variables (the statement's "constant model" clause does not
                 # depend on bookkeeping)
                 "stale_keys": st.lists(gen.key_strategy(labels, 2, False, min_deg=1), min_size=0, max_size=2),
+                "zero_offset": gen.pick((False, 3), (True, 1)),
             }))
     return st.sampled_from(_choices()).flatmap(for_choice)
 
@@ -162,6 +163,9 @@ def _run(spec, rec, qv):
     # ---- build ---------------------------------------------------------
     if is_dict:
         M = {k: v for k, v in gen.terms_dict(spec["terms"]).items() if v != 0}
+        if spec.get("zero_offset") and () not in M:
+            M[()] = 0          # an explicit zero constant is part of the caller's dict and must survive the call
+            classes.add("dict_with_explicit_zero_offset")
     else:
         M = lib(gen.build, qv, kind, spec["terms"], what="build")
         for rel, cterms, lam, log_trick in cons:
